@@ -444,9 +444,24 @@ func (f *indexFetcher) newInIndexIterator(
 	fieldConditions []fieldFilterCond,
 	matchers []valueMatcher,
 ) (*inIndexIterator, error) {
-	inValues, err := client.ToArrayOfNormalValues(fieldConditions[0].val)
+	allValues, err := client.ToArrayOfNormalValues(fieldConditions[0].val)
 	if err != nil {
 		return nil, NewErrInvalidInOperatorValue(err)
+	}
+
+	// a value that is listed twice must not yield its documents twice
+	inValues := make([]client.NormalValue, 0, len(allValues))
+	for _, val := range allValues {
+		isDuplicate := false
+		for _, seen := range inValues {
+			if val.Equal(seen) {
+				isDuplicate = true
+				break
+			}
+		}
+		if !isDuplicate {
+			inValues = append(inValues, val)
+		}
 	}
 
 	// iterators for _in filter already iterate over keys with first field value
